@@ -133,6 +133,7 @@ def step (s : St) (ws : List String) : St × String :=
       else ({ s with ompDisabled := false, maxThreads := n }, s!"ok {n}")
     | none => (s, "bad-op")
   | ["ompstat"] => (s, "O")
+  | ["ev"] => (s, "E")
   | ["tape"] => (s, showTape s)
   | ["val", k] => match k.toNat?.bind s.var? with
     | some x => (s, s!"v {x.val}")
